@@ -18,6 +18,56 @@ CLAIMED = {
     design='7 (C11)'),
 }
 
+CLAIMED.update({
+ 'C01': dict(
+    text='Machine-checked proofs (Lean 4) about the selection functions the instance model runs (select_master / check_master / '
+         'get_master_identifiers): the selection rule (declared Masters of RUNNING instances first, core instances first, lowest nick), '
+         'a sole recognised Master is kept, and agreement at EVERY quiescent fixpoint for ANY number of instances (same Master, live, seen '
+         'RUNNING by all, regards itself as Master). The instance and cluster models are tied to the code by a global lock-step of N real '
+         'instances (real Context/StateModes/FSM/Listener/SupervisorProxy) under generated schedules with faults, every step compared.',
+    note='Partial: convergence time under arbitrary fair asynchronous schedules is not proved (liveness); the link from "the monadic FSM step '
+         'returns the current state" to the two pure fixpoint conditions is by construction of the model (selectMaster/checkMaster call the '
+         'pure functions) but the stability gate is not part of the theorem; "only the Master gives job orders" is judged on the implementation '
+         '(Lean judge) and by correspondence, not proved. Trusted: Lean kernel, standard axioms, harness/cluster.py, harness/simenv.py, '
+         'Drv/Net.lean; discovery mode not modelled; accept_master\'s arbitrary choice adopted from the implementation (relational).',
+    technique='Lean 4 state-predicate theorem over clusters of any size + global lock-step correspondence of a real cluster',
+    design='7 (C01)'),
+ 'C02': dict(
+    text='Machine-checked proof (Lean 4): for every history of operations of an instance (ticks, publications, handshake results, failure '
+         'notifications, restart/shutdown/end_sync, any oracle answers of the job layers, internal errors included) the Supvisors state moves '
+         'along paths of the transition table, and the table - REGENERATED from FiniteStateMachine._Transitions on every run - only has '
+         'documented edges (returns to OFF/SYNCHRONIZATION/ELECTION only, ending states to FINAL only, FINAL terminal); the published state '
+         'has a single writer (AST fact, regenerated). Tie: translator + global lock-step of the real cluster.',
+    note='Partial: the entry clauses (known Master seen RUNNING on entry; a non-Master enters after its Master) are judged on the implementation '
+         'by the Lean judge at every step and by correspondence, not proved. Trusted: Lean kernel, standard axioms, tools/extract.py, '
+         'harness/cluster.py, harness/simenv.py, Drv/Net.lean.',
+    technique='Lean 4 proof by induction over operation histories on a model parametrised by tables regenerated from the source + lock-step correspondence',
+    design='7 (C02)'),
+ 'C07': dict(
+    text='Machine-checked proof (Lean 4) of accuracy: over EVERY history in which each local tick is handled while the last tick of peer j is '
+         'at most inactivity_ticks local ticks old and no failure notification about j is handled, a peer seen RUNNING stays RUNNING '
+         '(any other messages, stale/duplicated handshake results, failures of other peers, internal errors). The instance graph, the active '
+         'states and the strict comparison of is_inactive are REGENERATED from the source; the table has only documented edges, ISOLATED is final. '
+         'Tie: translator + global lock-step of the real cluster with crash/restart/cut/heal instants and tick phases.',
+    note='Partial: the detection bound and same-tick invalidation are carried by the lock-step correspondence and by timing judges on the real '
+         'objects, not by a theorem; "lost processes become FATAL" is C11 (known finding lose-while-only-stopping applies); local-never-ISOLATED '
+         'is judged. Real clocks and TCP time-outs are outside the model (an XML-RPC failure is an input).',
+    technique='Lean 4 frame/invariant proof over operation histories (state-error monad kit) + lock-step correspondence',
+    design='7 (C07)'),
+ 'C13': dict(
+    text='Machine-checked proofs (Lean 4): an ISOLATED peer stays ISOLATED over every history of operations; every message kind (tick, state, '
+         'handshake result, failure notification, failed info transfer) whose origin is ISOLATED is the identity on the instance state and emits '
+         'nothing; stale handshake results are ignored; nothing is queued for an ISOLATED peer; the handshake verdict is NOT_AUTHORIZED / '
+         'INCONSISTENT exactly as stated (four strategies); process state/removal/disability events from a non-admitted instance change nothing. '
+         'Tie: translator (instance table) + global lock-step with option mismatches and duplicated/stale/forged message injections.',
+    note='Partial: "refused at the handshake => marked ISOLATED, never admitted" is judged on the implementation (Lean judge: no CHECKED/RUNNING for '
+         'a peer with different strategies) and by correspondence; messages already dequeued by a proxy thread at the instant of isolation are a '
+         'thread race outside the model. Forged origins are only expected to be refused for instances that went through the handshake '
+         '(SupvisorsInstanceId.is_valid is documented as flexible before).',
+    technique='Lean 4 frame proofs over operation histories + equational airtightness lemmas + lock-step correspondence with message injection',
+    design='7 (C13)'),
+})
+
 NOT_YET = {}
 
 def main():
